@@ -68,7 +68,7 @@ theorem runCall_withWantsArgs (env : Env) (orc : Nat → Val → Raw) (f : Fn) (
     (kw : List (NameId × Val)) (body : BodyOut)
     (hpos : (f.argsWithoutSelf args).isEmpty = true) (hreq : requiredByKeyword kw f.plain) :
     runCall env orc (f.withWantsArgs w) args kw body = runCall env orc f args kw body := by
-  have hs : (f.withWantsArgs w).firstIsSelf = f.firstIsSelf := rfl
+  have hs : (f.withWantsArgs w).initFails args = f.initFails args := rfl
   have ha : (f.withWantsArgs w).argsWithoutSelf args = f.argsWithoutSelf args := rfl
   have hm : (f.withWantsArgs w).mode = f.mode := rfl
   unfold runCall
